@@ -135,7 +135,9 @@ def harness_alone(ctx, idx, count, fams, extra_kv, tag):
     except OSError:
         pass
     shutil.rmtree(d, ignore_errors=True)
-    return p.returncode, p.stdout.decode("utf-8", "replace")[-1500:], bad
+    full = p.stdout.decode("utf-8", "replace")
+    m = re.search(r"memory allocation of \d+ bytes failed", full)
+    return p.returncode, ((m.group(0) + " ... ") if m else "") + full[-1500:], bad
 
 
 def run_cli(ctx, clidir, dora):
